@@ -3,6 +3,7 @@ package tmpl
 import (
 	"fmt"
 	"go/ast"
+	"go/token"
 	"go/types"
 	"sort"
 	"strings"
@@ -173,14 +174,46 @@ func (d *deriver) obligations(dv *Derived, formatter string) {
 		}
 		dv.ob("G-MOCK/order", "lookups-before-execute", okAll && len(lookups) == len(model.Mocks), "the template is executed before every requested interface has been looked up")
 	}
+	// the infrastructure imports (sync, the source package) are registered after every variable has been
+	// named: otherwise the names of later interfaces depend on what earlier ones made moq import
+	{
+		lastVar, firstDirect := -1, -1
+		for i, ev := range d.events {
+			if ev.Kind == "addvar" {
+				lastVar = i
+			}
+			if ev.Kind == "addimport" && strings.HasPrefix(ev.Detail, "direct@") && firstDirect < 0 {
+				firstDirect = i
+			}
+		}
+		if lastVar >= 0 && firstDirect >= 0 {
+			dv.ob("G-MOCK/infrastructure-imports-last", "after-all-vars", firstDirect > lastVar, "Mock registers an import of its own (sync or the source package) before all parameters and results have been named: a parameter of a later interface that is spelled like that package is then renamed although its own signature does not collide with it, and the result depends on the order of the interface arguments")
+		}
+	}
 	if dv.Data == nil {
 		return
 	}
 	// ---- the data handed to the template (C02, C03, C08, C09, C10, C11, C20)
 	data := dv.Data
-	dv.ob("G-DATA/flags", "stub", fieldOf(data, "StubImpl") == interp.Value(e.Stub), "Data.StubImpl=%s with -stub=%v: the flag does not reach the template unchanged", interp.Show(fieldOf(data, "StubImpl")), e.Stub)
-	dv.ob("G-DATA/flags", "skip-ensure", fieldOf(data, "SkipEnsure") == interp.Value(e.SkipEnsure), "Data.SkipEnsure=%s with -skip-ensure=%v: the flag does not reach the template unchanged", interp.Show(fieldOf(data, "SkipEnsure")), e.SkipEnsure)
-	dv.ob("G-DATA/flags", "with-resets", fieldOf(data, "WithResets") == interp.Value(e.WithResets), "Data.WithResets=%s with -with-resets=%v: the flag does not reach the template unchanged", interp.Show(fieldOf(data, "WithResets")), e.WithResets)
+	// a flag is what the template sees under that name: a field, or a niladic method of the data
+	flagOf := func(name string) interp.Value {
+		if v, ok := data.Fields[name]; ok {
+			return v
+		}
+		if nt, ok := data.Type.(*types.Named); ok {
+			for i := 0; i < nt.NumMethods(); i++ {
+				if m := nt.Method(i); m.Name() == name {
+					if v, err := d.m.CallFunc(token.NoPos, m, data, nil); err == nil {
+						return v
+					}
+				}
+			}
+		}
+		return nil
+	}
+	dv.ob("G-DATA/flags", "stub", flagOf("StubImpl") == interp.Value(e.Stub), "Data.StubImpl=%s with -stub=%v: the flag does not reach the template unchanged", interp.Show(flagOf("StubImpl")), e.Stub)
+	dv.ob("G-DATA/flags", "skip-ensure", flagOf("SkipEnsure") == interp.Value(e.SkipEnsure), "Data.SkipEnsure=%s with -skip-ensure=%v: the flag does not reach the template unchanged", interp.Show(flagOf("SkipEnsure")), e.SkipEnsure)
+	dv.ob("G-DATA/flags", "with-resets", flagOf("WithResets") == interp.Value(e.WithResets), "Data.WithResets=%s with -with-resets=%v: the flag does not reach the template unchanged", interp.Show(flagOf("WithResets")), e.WithResets)
 	wantPkg := model.PkgName()
 	dv.ob("G-DATA/pkgname", "package-clause", symFlat(fieldOf(data, "PkgName")) == wantPkg, "Data.PkgName=%s, want %s", symFlat(fieldOf(data, "PkgName")), wantPkg)
 	// imports
